@@ -295,7 +295,34 @@ def compare(case, a, b, la, lb):
     return None
 
 
+class _SolverFailure(BaseException):
+    pass
+
+
+def _errors():
+    """Exceptions that count as the back-end failing on a valid input: every Exception plus pyo3's PanicException
+    (a Rust panic surfaces as a BaseException subclass)."""
+    try:
+        import solvor._solvor_rust as r  # noqa: F401
+        import pyo3_runtime  # type: ignore  # noqa: F401
+    except Exception:
+        pass
+    return (Exception,)
+
+
 ERRORS = (Exception,)
+
+
+def guarded(fn, *a, **k):
+    """Run fn; convert a Rust panic (BaseException subclass named PanicException) into a RuntimeError."""
+    try:
+        return fn(*a, **k)
+    except (KeyboardInterrupt, SystemExit, GeneratorExit):
+        raise
+    except Exception:
+        raise
+    except BaseException as e:  # pyo3_runtime.PanicException
+        raise RuntimeError(f"{type(e).__name__}: {e}") from None
 
 
 def execute(case) -> Outcome:
@@ -324,7 +351,7 @@ def execute(case) -> Outcome:
         shared = [tuple(e) for e in case["edges"]]
         for route, be in (("rust", "rust"), ("default", None)):
             try:
-                r = call(case, be, shared)
+                r = guarded(call, case, be, shared)
             except ERRORS as e:
                 o.violate(PROP, f"exception:{type(e).__name__}", f"backend={route} raised {type(e).__name__}: {e} (python gave {py.status.name})",
                           route=route, **key)
@@ -349,7 +376,7 @@ def execute(case) -> Outcome:
     else:
         o.fault("backend_unavailable")
         try:
-            r = call(case, None)
+            r = guarded(call, case, None)
             d = compare(case, py, r, "python", "default-without-extension")
             if d:
                 o.violate(PROP, d[0], f"{name}: {d[1]}", route="fallback", **key)
